@@ -490,7 +490,7 @@ func (e *c19Env) evalCase(c c19Case) (fs []ev.Finding, class string) {
 }
 
 func runC19(replay string) int {
-	run := ev.NewRun("C19", "exploration")
+	run := ev.NewRun("C19", "model_checking")
 	run.Assumptions = []string{
 		"PrivKey.Sign is documented to sign 'the provided hash of the message': a 32-byte input is taken as the digest itself, any other input is Keccak-256 hashed first; the oracle models the signed digest accordingly (so Sign(sk, h) with h = Keccak(m) is a signature of m, and Sign(sk, m32) of a 32-byte m32 does not verify against m32 itself)",
 		"the recovery byte V of a 65-byte signature is not part of the verified [R||S] signature: flipping it must not change the verdict; the high-S twin (r, n−s) of a signature is informational (same key, same message)",
